@@ -208,9 +208,10 @@ Section model.
     MS (<[nobj st := []]> (objs st)) (S (nobj st)) (ents st) (spawn st) (by_class st) (by_target st).
   Definition new_ent (l : kvs) (st : mstate) : mstate := (update (nobj st) l (new_obj st)).1.
 
-  (** VMF.add_ent. Adding the worldspawn object to the entity list is outside the modelled domain (no-op). *)
+  (** VMF.add_ent. Adding the worldspawn object to the entity list, or an object that does not exist, is outside
+      the modelled domain (no-op). *)
   Definition add_ent (e : nat) (st : mstate) : mstate :=
-    if decide (e = spawn st) then st else
+    if decide (e = spawn st ∨ nobj st ≤ e) then st else
     let l := keys_of st e in
     MS (objs st) (nobj st) (ents st ++ [e]) (spawn st)
        (ix_add (cls_of_keys l) e (by_class st)) (ix_add (tgt_of_keys l) e (by_target st)).
